@@ -456,6 +456,23 @@ def oracle(case, out):
         if out.get("reparse_a") != strip(a):
             return "rendering a and parsing it back (syn) does not give a back: rendered %r, read back %s" % (
                 out["render_a"]["err"], json.dumps(out.get("reparse_a")))
+        # the same through `render_type` (crate names looked up by package id), the input of `syn_type`
+        crates = case.get("crates", {})
+        pk = {n["Path" if "Path" in n else "TypeAlias"]["package_id"] for n in nodes(a) if "Path" in n or "TypeAlias" in n}
+        if all(p in crates for p in pk):
+            def f(n):
+                (tag, v), = n.items()
+                if tag in ("Path", "TypeAlias"):
+                    n2 = tmap(n, lambda m: None if m is n else f(m))
+                    n2[tag]["base_type"] = [crates[v["package_id"]]] + list(v["base_type"][1:])
+                    return n2
+                return None
+            expect = strip(tmap(a, f))
+            if wf(tmap(a, f)) and out.get("reparse_type_a") != expect:
+                return "render_type(a) parsed back (syn) does not give a back: rendered %r, read back %s" % (
+                    out["render_a"]["type"], json.dumps(out.get("reparse_type_a")))
+        elif out["render_a"]["type"] is not None:
+            return "render_type succeeded although a package id has no crate name"
     return None
 
 
